@@ -3,7 +3,7 @@ CONSTANTS
   MaxInv = 1
   TxU <- TxUDef
   Lists <- ListsC09
-  CbModes = {"zero", "max"}
+  CbModes = {"zero"}
   Dts = {1}
   H0 = 101
   BaseDt = 1
